@@ -200,6 +200,16 @@ class Gen:
         return ("with", self.body(depth - 1))
 
 
+def _has_statement(code):
+    """does the text of a <% %> block contain a Python statement (comments and blank lines are none)"""
+    import ast as _ast
+    import textwrap as _textwrap
+    try:
+        return bool(_ast.parse(_textwrap.dedent(code)).body)
+    except SyntaxError:
+        return True
+
+
 def ctl_lines(stmts, rng, wc=[0]):
     out = []
     for s in stmts:
@@ -222,7 +232,7 @@ def ctl_lines(stmts, rng, wc=[0]):
             out.append(pad + "## a comment")
         elif k == "silent":
             out.append(rng.choice(['<%%def name="sd%d()">in def\n%% if True:\nyes\n%% endif\n</%%def>\\' % s[1], "<%%! import os as os%d %%>\\" % s[1],
-                                   '<%%def name="se%d()"></%%def>\\' % s[1], "<%text></%text>\\"]))
+                                   '<%%def name="se%d()"></%%def>\\' % s[1], "<%text></%text>\\", "<% %>\\", "<%\n  # nothing to do here\n%>\\"]))
         elif k == "if":
             for i, (cond, body) in enumerate(s[1]):
                 if rng.random() < 0.2:      # the header continued over two lines with a backslash
@@ -510,7 +520,9 @@ def run(ctx):
                     elif isinstance(c, parsetree.ControlLine):
                         kinds += "e" if c.isend else ("t" if node.is_ternary(c.keyword) else "p")
                     elif isinstance(c, (parsetree.DefTag, parsetree.NamespaceTag, parsetree.InheritTag, parsetree.PageTag)) or (isinstance(c, parsetree.Code) and c.ismodule) \
-                            or (isinstance(c, parsetree.TextTag) and not c.nodes):
+                            or (isinstance(c, parsetree.TextTag) and not c.nodes) \
+                            or (isinstance(c, parsetree.Code) and not c.ismodule and not _has_statement(c.text)):
+                        # (a <% %> block with no statement in it writes nothing where it stands, like a comment: fix 384499f)
                         kinds += "s"
                     else:
                         kinds += "m"
